@@ -281,6 +281,12 @@ func (h *handler1) handleBrokerPublish(ctx context.Context, mqPublish *mqPkts.Pu
 			len(mqPublish.TopicName), len(mqPublish.Payload))
 	}
 
+	// An empty topic name cannot be put into a REGISTER (the client's decoder
+	// rejects it) and is not a valid MQTT topic name anyway.
+	if mqPublish.TopicName == "" {
+		return errors.New("broker PUBLISH with an empty topic name")
+	}
+
 	// Get TopicID
 	var needsRegister bool
 	var topicID uint16
